@@ -169,6 +169,12 @@ def control(proc, what, arg=None, who='ext'):
         elif what == 'unlisten':
             # the process takes the listener off itself (again): removing a listener that is not (any more) there is fine
             ret = proc.remove_process_listener(w.extra.get('main_listener'))
+        elif what == 'remove_observer':
+            # the process detaches an observer of its state changes (registered by whoever holds it) once it is over:
+            # after close() there is nothing left to detach, which is fine
+            from plumpy.base.state_machine import StateEventHook
+
+            ret = proc.remove_state_event_callback(StateEventHook.ENTERED_STATE, w.extra.get('extra_observer'))
         elif what == 'add_cleanup':
             ret = proc.add_cleanup(lambda: None)
         elif what == 'out':
@@ -492,7 +498,14 @@ class ProgBase(HookMixin, ContextMixin, Process):
                     await child.step_until_terminated()
                     world.cur().tr(pid, {'k': 'cb-after-await-child', 'tag': tag, 'cur': Process.current() is proc, 'state': proc.state.value})
 
-            self.call_soon(callback)
+            if mode == 'args':
+                # a callback scheduled with positional and keyword arguments: it is called with exactly those
+                def callback_args(*args, proc=self, **kwargs):
+                    world.cur().tr(pid, {'k': 'cb', 'tag': tag, 'cur': Process.current() is proc, 'state': proc.state.value, 'args_ok': (args, kwargs) == ((1, 'a'), {'k': 2, 'flag': None}), 'got': repr((args, kwargs))[:80]})
+
+                self.call_soon(callback_args, 1, 'a', k=2, flag=None)
+            else:
+                self.call_soon(callback)
         elif kind == 'soon_parent':
             # schedule a callback on the process that launched / executed this one (on itself if there is none)
             target = world.cur().extra.get('parent', {}).get(self.pid, self)
@@ -573,6 +586,8 @@ class ProgBase(HookMixin, ContextMixin, Process):
         if kind == 'stop':
             return cmds['Stop'](dec(ret[1]), ret[2])
         if kind == 'unsuccessful':
+            if ret[1] == '__default__':
+                return plumpy.UnsuccessfulResult()  # no code given: the result is None
             return plumpy.UnsuccessfulResult(ret[1])
         if kind == 'kill':
             if ret[1] == NOMSG:
